@@ -24,6 +24,9 @@ def run(pid, tier, replay):
         if pid == "C05":
             from . import net_c05
             return net_c05.run(tier)
+        if pid == "C09":
+            from . import net_c09
+            return net_c09.run(tier)
         print(f"unknown property {pid}")
         return 2
     except C.BuildError as e:
